@@ -515,6 +515,9 @@ var Prop = &harness.Prop{
 			}
 		}
 		u = append(u, freshnessUnit(), wholeReplayUnit())
+		for sp := 0; sp < 8; sp++ {
+			u = append(u, ShortRecordUnit(sp, 8))
+		}
 		u = append(u, refUnits(tier)...)
 		return u
 	},
